@@ -591,8 +591,18 @@ func genSweeps(r *lib.Rng) {
 func genAll(r *lib.Rng, n int, thorough bool) {
 	quicLast := func() {}
 	defer func() { quicLast() }()
-	if os.Getenv("C20_ONLY") == "quic" { // development aid: the QUIC histories alone
+	switch os.Getenv("C20_ONLY") { // development aid: one kind alone
+	case "quic":
 		quicLast = genQUIC(r, 150)
+		return
+	case "starget":
+		genSTargets(r, 40)
+		return
+	case "own":
+		for i := 0; i < 5; i++ {
+			runOwn(r)
+			runOwnQ(r)
+		}
 		return
 	}
 	genSweeps(r)
@@ -601,6 +611,7 @@ func genAll(r *lib.Rng, n int, thorough bool) {
 		nt, no = 400, 100
 	}
 	genTargets(r, nt)
+	genSTargets(r, nt)
 	if os.Getenv("C20_QUIC") != "0" { // on by default since the defect (D-C20b) is repaired in /repo
 		nq := 150
 		if thorough {
@@ -610,6 +621,7 @@ func genAll(r *lib.Rng, n int, thorough bool) {
 	}
 	for i := 0; i < no; i++ {
 		runOwn(r)
+		runOwnQ(r)
 	}
 	for i := 0; i < n; i++ {
 		genHistory(r)
